@@ -5,6 +5,7 @@ import z3
 from . import dag as D, real as R, uf as U, build
 
 REPLAY_DIR = os.environ.get('SYMX_REPLAY') or os.path.join(build.VERIF, 'replay')
+NAME_SUFFIX = ['']     # set while a task is re-run on an alternative path
 OK = ('unsat', 'syntactic', 'int_ok')
 
 
@@ -28,9 +29,12 @@ def frac_of(s):
 
 class Scenario:
     def __init__(self, prop, name, tu, script, decisions=None, timeout=60, enc_kwargs=None, dag=None, shadow_override=None):
-        self.prop, self.name, self.tu, self.script = prop, name, tu, script
+        self.prop, self.name, self.tu, self.script = prop, name + NAME_SUFFIX[0], tu, script
+        self.base_name = name
         self.decisions = decisions
         self.timeout = timeout
+        if D.SHADOW_OVERRIDE:
+            shadow_override = dict({k: v for k, v in D.SHADOW_OVERRIDE.items() if k in script.shadows}, **(shadow_override or {}))
         self.shadow_override = shadow_override
         self.text = script.text(decisions, shadow_override)
         self.dag = dag if dag is not None else D.run(tu, self.text)
@@ -159,6 +163,8 @@ class Scenario:
         pf = self.path_formulas()
         if not pf:
             return self._rec(name, 'real', 'syntactic')
+        if NAME_SUFFIX[0]:
+            return None       # alternative-path re-run: coverage is decided by the driver over all explored paths
         r = R.solve(name, self.base(False) + [z3.Not(z3.And(pf))], self.timeout)
         self.queries += 1
         self.solver_time += r.t
@@ -166,7 +172,9 @@ class Scenario:
             return self._rec(name, 'real', 'unsat', r.t, h=hash(tuple(f.hash() for f in pf)))
         if r.status == 'unknown':
             return self._rec(name, 'real', 'unknown', r.t, detail=r.detail)
-        return self._rec(name, 'real', 'sat', r.t, confirmed=False, model=r.model, note='another path is feasible: ' + str(self.dag.path)[:300])
+        d = self._rec(name, 'real', 'sat', r.t, confirmed=False, model=r.model, note='another path is feasible: ' + str(self.dag.path)[:300])
+        d['pathcover'] = True
+        return d
 
     def witness_search(self, fs, a, rhs, tries=12):
         """After an inconclusive solver call: look for a concrete counterexample by exact rational evaluation.
@@ -397,6 +405,26 @@ class Scenario:
             self.queries += 1
             if ok:
                 return self._rec(name, 'uf', 'unsat', time.time() - t, h=hash((self.uf.cid(na),)))
+        # equality tests on the recorded path that came out TRUE make their operands bit-equal on this path: decide the
+        # identity in the theory of uninterpreted functions WITH these equalities (congruence closure by z3)
+        hyps = [(f[1], f[2]) for f in self.dag.path if f[0] == 'eq' and f[3] == 1 and f[1] >= 0 and f[2] >= 0 and f[1] != f[2]]
+        if hyps:
+            if getattr(self, '_uf_alias', None) is None:
+                # union-find over the operands of the true equality tests; every class is represented by its smallest node id
+                par = {}
+
+                def find(x):
+                    while par.get(x, x) != x:
+                        x = par[x]
+                    return x
+                for (x, y) in hyps:
+                    rx, ry = find(x), find(y)
+                    if rx != ry:
+                        par[max(rx, ry)] = min(rx, ry)
+                self._uf_alias = U.UF(self.dag, alias={x: find(x) for x in list(par)})
+            if self._uf_alias.same(na, nb):
+                self.queries += 1
+                return self._rec(name, 'uf', 'unsat', time.time() - t, h=hash((self.uf.cid(na), self.uf.cid(nb))), note='node identity modulo the equalities tested true on this path')
         if real_fallback:
             return self.real_eq(name + ' [real]', out_a, self.enc.out(out_b))
         cap = self.capped()
@@ -463,7 +491,7 @@ class Scenario:
                 return {'confirmed': True, 'a': a, 'b': b, 'point': pt,
                         'replay': self.write_replay(name, {'kind': 'uf', 'out_a': out_a, 'out_b': out_b, 'shadows': pt,
                                                            'decisions': self.decisions})}
-        return {'confirmed': False, 'note': 'recorded computations differ structurally but gave identical doubles on %d inputs' % ntr}
+        return {'confirmed': False, 'note': 'recorded computations differ structurally but gave identical doubles on %d inputs%s' % (ntr, (' [UF-with-path-equalities query failed: %s]' % self._hyp_err) if getattr(self, '_hyp_err', None) else '')}
 
     # ------------------------------------------------------------------ concrete ints
     def int_eq(self, name, key, expected):
